@@ -364,7 +364,7 @@ def run_forward(xml, qpos, qvel, nworld=2):
   return m, d, mm, dd
 
 
-def same_constraints(m, d, dd, w=0, frames=False):
+def same_constraints(m, d, dd, w=0, frames=False, masses=False):
   """True when MuJoCo and MJWarp (world w) built the same constraint set: same row count and the same contacts
   (geoms, dimension, position, distance, contact normal; with frames=True also the tangent axes - the
   pyramidal cone is not invariant under a rotation of the tangent axes, so a different axis choice is a
@@ -392,6 +392,13 @@ def same_constraints(m, d, dd, w=0, frames=False):
     if hit is None:
       return False
     used.add(hit)
+  if masses:  # row masses per constraint type as multisets (a differing efc_D is a C05/C06 matter, see findings/C06.json)
+    nefc = int(dd.nefc.numpy()[w])
+    typ, D = dd.efc.type.numpy()[w, :nefc], dd.efc.D.numpy()[w, :nefc].astype(np.float64)
+    for t in set(int(x) for x in d.efc_type):
+      a, b = np.sort(np.asarray(d.efc_D)[np.asarray(d.efc_type) == t]), np.sort(D[typ == t])
+      if len(a) != len(b) or np.any(np.abs(a - b) > 1e-3 * np.abs(a) + 1e-9):
+        return False
   return True
 
 
